@@ -40,6 +40,17 @@ Local Open Scope N_scope.
 KEY_ZERO = "zero-duration-events-twice"
 KEY_GAP = "watch-first-event-1ns"
 KEY_ROOM = "events-refused-when-args-fill-buffer"
+KEY_ONCE = "watch-var-once-per-process"
+
+
+_H = {}
+
+
+def harness(ctx):
+    """one harness (one build of /repo's tree) per run"""
+    if id(ctx) not in _H:
+        _H[id(ctx)] = mch.Harness(ctx)
+    return _H[id(ctx)]
 
 
 # ---------------------------------------------------------------- observations
@@ -245,6 +256,10 @@ def gen_case(rng, klass):
     case = {"klass": klass, "cfg": cfg, "reads": reads, "wcpu": wcpu, "wvar": wvar, "pmu": pmu, "xforest": xf,
             "pure_cpu": pure_cpu, "args": args, "rets": rets, "sargs": sargs, "srets": srets}
     evs = xflatten(xf)
+    if wvar and rng.random() < 0.5:
+        case["vsize"] = rng.choice([1, 2, 4])          # a watched variable of 1, 2 or 4 bytes
+        for e in evs:
+            e[3]["var"] &= (1 << (8 * case["vsize"])) - 1
     if klass == "any" and rng.random() < 0.1:
         evs = evs[:rng.randrange(1, len(evs) + 1)]
     case["evs"] = evs
@@ -353,13 +368,17 @@ def case_env(case):
     if case["wcpu"]:
         w.append("cpu")
     if case["wvar"]:
-        w.append("var:verif_watched_var")
+        w.append("var:" + VAR_SYM[case.get("vsize", 8)])
     if w:
         env["UFTRACE_WATCH"] = ";".join(w)
     return env
 
 
-def set_obs_lines(prev, o):
+VAR_SYM = {8: "verif_watched_var", 1: "verif_watched_u8", 2: "verif_watched_u16", 4: "verif_watched_u32"}
+VAR_KNOB = {8: "VAL var", 1: "VALX var8", 2: "VALX var16", 4: "VALX var32"}
+
+
+def set_obs_lines(prev, o, vsize=8):
     out = []
     if prev is None or prev["pf"] != o["pf"]:
         out.append("VAL majfault %d" % o["pf"][0])
@@ -374,7 +393,7 @@ def set_obs_lines(prev, o):
     if prev is None or prev["cpu"] != o["cpu"]:
         out.append("VAL cpu %d" % o["cpu"])
     if prev is None or prev["var"] != o["var"]:
-        out.append("VAL var %d" % o["var"])
+        out.append("%s %d" % (VAR_KNOB[vsize], o["var"]))
     return out
 
 
@@ -390,7 +409,7 @@ def script_of(case):
         lines += str_lines()
     prev = None
     for e in case["evs"]:
-        lines += set_obs_lines(prev, e[3])
+        lines += set_obs_lines(prev, e[3], case.get("vsize", 8))
         prev = e[3]
         if e[0] == "E":
             if cyg:
@@ -448,9 +467,12 @@ def parse_stream_raw(out, case):
             data = b[off + 2:off + 2 + ln]
             if more:
                 off += (ln + 2 + 7) & ~7
-            size = 4 if addr == ID_CPU else 8
-            d = [int.from_bytes(data[i:i + size], "little") for i in range(0, len(data), size)]
-            items.append(("E", t, addr, d[1:] if addr == ID_VAR else d))
+            if addr == ID_VAR:
+                d = [int.from_bytes(data[8:], "little")]
+            else:
+                size = 4 if addr == ID_CPU else 8
+                d = [int.from_bytes(data[i:i + size], "little") for i in range(0, len(data), size)]
+            items.append(("E", t, addr, d))
         else:
             rel = addr - (base & ((1 << 48) - 1))
             k = rel // 256
@@ -479,7 +501,7 @@ def parse_stream(out):
             if eid == ID_CPU:
                 d = words(hx, 4)
             elif eid == ID_VAR:
-                d = words(hx, 8)[1:]          # drop the (randomised) address of the variable
+                d = [int.from_bytes(bytes.fromhex(hx)[8:], "little")]     # drop the (randomised) address of the variable
             else:
                 d = words(hx, 8)
             items.append(("E", t, eid, d))
@@ -632,7 +654,7 @@ def watch_spec_applicable(case):
 # ---------------------------------------------------------------- the in-process tie
 def inproc(ctx):
     rng = ctx.rng
-    h = mch.Harness(ctx)
+    h = harness(ctx)
     cases = []
     plan = [("plain", ctx.n(45, 700)), ("watch0", ctx.n(45, 700)), ("any", ctx.n(60, 1000))]
     todo = fixed_cases() + [gen_case(rng, klass) for klass, n in plan for _ in range(n)]
@@ -650,6 +672,8 @@ def inproc(ctx):
                 tags.append("watch:cpu")
             if case["wvar"]:
                 tags.append("watch:var")
+                if case.get("vsize"):
+                    tags.append("watch:var-%d-bytes" % case["vsize"])
             if not case["pmu"]:
                 tags.append("pmu-unavailable")
             if uses_payload(case):
@@ -687,17 +711,20 @@ def inproc(ctx):
 
 def threads(ctx):
     """several threads with interleaved hooks in one process: every thread's stream and state must be the model's run
-    on that thread's own hooks and observations ("that thread's previous observation"); -W cpu only (the global
-    item of -W var is shared between threads)"""
+    on that thread's own hooks and observations ("that thread's previous observation"); with -W var the global watch
+    item is shared: those runs go through the multi-thread model (xexec_mt) only"""
     rng = ctx.rng
-    h = mch.Harness(ctx)
+    h = harness(ctx)
     cases = []
+    mt = []
     for it in range(ctx.n(8, 120)):
         nth = rng.choice([2, 3])
         klass = rng.choice(["watch0", "any"])
         base = gen_case(rng, klass)
-        base["wvar"] = False
+        base["wvar"] = rng.random() < 0.5
         base["wcpu"] = True
+        base["pure_cpu"] = base["pure_cpu"] and not base["wvar"]
+        base.pop("vsize", None)
         base["args"], base["rets"], base["sargs"], base["srets"] = [], [], {}, []
         base["cfg"].pop("max_stack", None)
         for tr in base["cfg"]["trig"].values():      # mcount_enabled is one switch for the whole process, the model is
@@ -709,14 +736,18 @@ def threads(ctx):
             for k in ("cfg", "reads", "wcpu", "wvar", "pmu", "pure_cpu", "args", "rets", "sargs", "srets"):
                 c[k] = base[k]
             per.append(c)
-        for c in per:                                # no capture in the thread cases
+        for c in per:                                # no capture in the thread cases, 8-byte variable
+            c.pop("vsize", None)
             for e in c["evs"]:
                 for key in ("asz", "strs", "rstr"):
                     e[3].pop(key, None)
+                if base["wvar"]:
+                    e[3]["var"] = 0x5a5a0000 + rng.choice([0, 0, 1, 1, 2])     # few values: threads meet the same change
         cyg = base["cfg"].get("shape") == "cyg"
         lines = ["AUTOSTATE 2", "VALX statm_on 1", "VALX pmu_on %d" % (1 if base["pmu"] else 0)]
         pos = [0] * nth
         prev = None
+        order = []
         while any(pos[t] < len(per[t]["evs"]) for t in range(nth)):
             t = rng.choice([x for x in range(nth) if pos[x] < len(per[x]["evs"])])
             lines.append("T %d" % (t + 1))
@@ -725,6 +756,7 @@ def threads(ctx):
                     break
                 e = per[t]["evs"][pos[t]]
                 pos[t] += 1
+                order.append((t, e))
                 lines += set_obs_lines(prev, e[3])
                 prev = e[3]
                 if e[0] == "E":
@@ -737,6 +769,7 @@ def threads(ctx):
         # attribute the state lines and the dumps to the threads
         cur, states, sections, sec = None, {t + 1: [] for t in range(nth)}, {}, None
         pend_s = None
+        gstates = []
         for l in out:
             if l.startswith("T ") and len(l.split()) == 2:
                 cur = int(l.split()[1])
@@ -746,6 +779,7 @@ def threads(ctx):
             elif l.startswith("XS ") and cur and pend_s is not None:
                 k = l.split()
                 states[cur].append(tuple(pend_s) + (int(k[1]), k[2] == "1", int(k[3])))
+                gstates.append((cur - 1, states[cur][-1]))
                 pend_s = None
             elif l.startswith("BUF ") and sec is None:
                 sec = [l]
@@ -761,11 +795,33 @@ def threads(ctx):
             c = per[t]
             c["res"] = {"states": states[t + 1], "items": parse_stream(sections[t + 1]), "errno_ok": True}
             c["thread_script"] = lines
-            cases.append(c)
-        ctx.case(key=("threads", repr(base["cfg"]), tuple(lines)), tags=["threads=%d" % nth, "class:threads"],
+            if not base["wvar"]:
+                cases.append(c)         # per-thread model and checkers apply as they are
+        mt.append({"base": base, "order": order, "gstates": gstates, "items": [per[t]["res"]["items"] for t in range(nth)],
+                   "script": lines})
+        ctx.case(key=("threads", repr(base["cfg"]), tuple(lines)),
+                 tags=["threads=%d" % nth, "class:threads"] + (["threads:-W var shared item"] if base["wvar"] else []),
                  size=len(lines))
     if cases:
         evaluate(ctx, cases, "c17_threads")
+    if mt:
+        defs = "Definition mtcases : list bool := [\n%s\n].\n" % ";\n".join(
+            "agree_mt %s [%s] [%s] [%s]" % (
+                coq_xcfg(m["base"]),
+                "; ".join("(%d%%nat, %s)" % (t, coq_xevs([e])[1:-1]) for t, e in m["order"]),
+                "; ".join("(%d%%nat, %s)" % (t, coq_states([st])[1:-1]) for t, st in m["gstates"]),
+                "; ".join(coq_items(x) for x in m["items"])) for m in mt)
+        r = coq.run_cases(ctx, "c17_mt", PRE, with_shared(defs), [("mt", "bad_indices (fun b : bool => b) mtcases 0")],
+                          timeout=1500)
+        if r is not None:
+            bad = coq.parse_nat_list(r["mt"])
+            ctx.extra["thread_runs"] = len(mt)
+            if bad:
+                m = mt[bad[0]]
+                ctx.violation("model and libmcount disagree on %d multi-thread run(s) (per-thread machines + the shared -W var item)"
+                              % len(bad), {"mode": "threads", "cfg": m["base"]["cfg"], "reads": m["base"]["reads"],
+                                           "wvar": m["base"]["wvar"], "env": case_env(m["base"]), "script": m["script"],
+                                           "impl_states": m["gstates"], "impl_streams": m["items"]}, False)
 
 
 # ---------------------------------------------------------------- reader side: what the user sees of the events
@@ -805,7 +861,7 @@ def reader(ctx, cases):
     (utils/fstack.c read_task_event, utils/event.c names and values; diff values are signed differences)"""
     from vf import datadir as D
     import struct
-    objdir = build.get_build("plain", ctx.log)
+    objdir = harness(ctx).objdir
     base = 0x400000
     syms = D.default_syms(6) + [(WVAR_OFF, 8, "D", "wvar")]
     names = [x[3] for x in syms]
@@ -822,7 +878,7 @@ def reader(ctx, cases):
             else:
                 eid, data = it[2], it[3]
                 if eid == ID_VAR:
-                    raw = struct.pack("<QQ", base + WVAR_OFF, data[0])
+                    raw = struct.pack("<Q", base + WVAR_OFF) + data[0].to_bytes(c.get("vsize", 8), "little")
                 elif eid == ID_CPU:
                     raw = struct.pack("<I", data[0])
                 else:
@@ -879,7 +935,7 @@ def sample_of(case):
 def replay_obj(case, extra=None):
     o = {"mode": "inproc", "klass": case["klass"], "cfg": case["cfg"], "reads": case["reads"], "wcpu": case["wcpu"],
          "wvar": case["wvar"], "pmu": case["pmu"], "args": case.get("args", []), "rets": case.get("rets", []),
-         "sargs": case.get("sargs", {}), "srets": case.get("srets", []), "events": case["evs"], "env": case_env(case),
+         "sargs": case.get("sargs", {}), "srets": case.get("srets", []), "vsize": case.get("vsize", 8), "events": case["evs"], "env": case_env(case),
          "impl_states": case["res"]["states"], "impl_stream": case["res"]["items"]}
     if case.get("thread_script"):
         o["thread_script"] = case["thread_script"]
@@ -1001,7 +1057,7 @@ def parse_raw_tail(hexs, first_payload):
 
 def regressions(ctx):
     """the witnesses of the four defects this check found (7cf042b, aa8baff, 35535f9, 197b449): ordinary cases now"""
-    h = mch.Harness(ctx)
+    h = harness(ctx)
     # (1) read= and argument capture in one frame (the slot above the frame is primed with a known size word)
     env = {"UFTRACE_TRIGGER": "f0@read=page-fault", "UFTRACE_ARGUMENT": "f0@arg1;f3@arg1"}
     script = ["VAL pagefault 5", "E 2 1000", "EA 3 1010 7", "X 1020", "X 1030", "EA 0 5000 7", "VAL pagefault 9", "X 5200",
@@ -1045,7 +1101,7 @@ def regressions(ctx):
 
 def regression_valgrind(ctx):
     """thorough tier: no invalid access / uninitialised use in the -W var path (197b449), memcheck on the real libmcount"""
-    h = mch.Harness(ctx)
+    h = harness(ctx)
     d = os.path.join(ctx.scratch, "c17vg")
     os.makedirs(d, exist_ok=True)
     e = {k: v for k, v in os.environ.items() if not k.startswith("UFTRACE_")}
@@ -1074,7 +1130,7 @@ def regression_valgrind(ctx):
 
 # ---------------------------------------------------------------- known findings that remain
 def known(ctx):
-    h = mch.Harness(ctx)
+    h = harness(ctx)
     # a recorded call of zero duration gets every read / diff event twice (C17_zero_duration_refuted)
     script = ["VAL pagefault 5", "E 0 100", "VAL pagefault 9", "X 100", "DUMP"]
     env = {"UFTRACE_TRIGGER": "f0@read=page-fault,trace"}
@@ -1101,6 +1157,27 @@ def known(ctx):
                       {"mode": "witness", "script": script, "env": env, "out": out[-6:]}, True)
     ctx.known_finding(KEY_ROOM, "a function with read= whose captured arguments fill the frame buffer loses its events",
                       still_fails=ids == [], replay={"mode": "witness", "script": script, "env": env})
+    # -W var with two threads: a change is reported by the first thread that notices it only (C17_watch_var_threads_refuted)
+    script = ["T 1", "VAL var 3", "E 0 100", "T 2", "E 0 105", "T 1", "VAL var 4", "X 200", "T 2", "X 205",
+              "T 1", "DUMP", "T 2", "DUMP"]
+    env = {"UFTRACE_WATCH": "var:verif_watched_var"}
+    out, _ = run_script(h, script, env, 96)
+    secs, cur = [], None
+    for l in out:
+        if l.startswith("BUF ") and cur is None:
+            cur = []
+        if cur is not None:
+            cur.append(l)
+            if l == "END":
+                secs.append(cur)
+                cur = None
+    vals = [[it[3][0] for it in parse_stream(sec) if it[0] == "E" and it[2] == ID_VAR] for sec in secs]
+    ctx.case(key=("known", KEY_ONCE), tags=["known:" + KEY_ONCE], sample={"script": script, "var_events_per_thread": vals})
+    if vals not in ([[4], []], [[4], [4]]):
+        ctx.violation("C17: -W var, two threads observing 3 then 4: var events per thread %r" % (vals,),
+                      {"mode": "witness", "script": script, "env": env, "out": out[-14:]}, True)
+    ctx.known_finding(KEY_ONCE, "-W var: a change is reported only by the first thread that notices it",
+                      still_fails=vals == [[4], []], replay={"mode": "witness", "script": script, "env": env})
     # the hook after a thread's first hook comes 1 ns later: an event is written inside a call that starts after
     # the event's time stamp (C17_watch_times_gap1_refuted)
     script = ["VAL cpu 1", "E 0 100", "VAL cpu 2", "E 1 101", "VAL cpu 3", "X 102", "VAL cpu 4", "X 200", "DUMP"]
@@ -1179,13 +1256,13 @@ def replay(ctx, obj):
     coq.prove(ctx, "C17")
     if obj.get("mode") != "inproc" or "events" not in obj:
         return run(ctx)
-    h = mch.Harness(ctx)
+    h = harness(ctx)
     cfg = obj["cfg"]
     cfg["trig"] = {int(k): v for k, v in cfg.get("trig", {}).items()}
     case = {"klass": obj.get("klass", "any"), "cfg": cfg, "reads": {int(k): v for k, v in obj["reads"].items()},
             "wcpu": obj["wcpu"], "wvar": obj["wvar"], "pmu": obj["pmu"], "args": obj.get("args", []),
             "rets": obj.get("rets", []), "sargs": {int(k): v for k, v in obj.get("sargs", {}).items()},
-            "srets": obj.get("srets", []),
+            "srets": obj.get("srets", []), "vsize": obj.get("vsize", 8),
             "evs": [tuple(e) for e in obj["events"]], "complete": False, "xforest": []}
     case["res"] = run_case(h, case)
     ctx.case(key="replay", sample=sample_of(case))
